@@ -89,7 +89,9 @@ fn main() {
             let per = (count + cl.len().max(1) - 1) / cl.len().max(1);
             for c in &cl {
                 for _ in 0..per {
-                    let a = (c.gen)(&mut r);
+                    let mut a = (c.gen)(&mut r);
+                    // change-directed mode: tie the clause's arguments to each other as well
+                    if !gen::dict().is_empty() && r.chance(1, 4) { gen::relate(&mut a, &mut r); }
                     writeln!(out, "{}", line(&format!("oracle.{}.{}", c.prop, c.name), &a)).unwrap();
                 }
             }
